@@ -200,8 +200,16 @@ fn message(tx: &Transaction, ps: &[TxOut], genesis: BlockHash, q: &Q) -> String 
     })
 }
 
+/// does the consensus encoding carry this in-memory value?
+fn transportable(tx: &Transaction) -> bool {
+    matches!(elements::encode::deserialize::<Transaction>(&serialize(tx)), Ok(ref t) if t == tx)
+}
+
 fn sighash_line(tx: &Transaction, ps: &[TxOut], genesis: &[u8; 32], q: &Q) -> String {
-    format!("sighash {} {} {} {}", hex(&serialize(tx)), prevouts_str(ps), hx(genesis), q_str(q))
+    // values the consensus encoding cannot carry (a null outpoint holding a pegin flag or an issuance) travel
+    // field by field (`m:` transport, proved faithful in EV.Proofs.MemTx)
+    let t = if transportable(tx) { hex(&serialize(tx)) } else { gen::memtx_hex(tx) };
+    format!("sighash {} {} {} {}", t, prevouts_str(ps), hx(genesis), q_str(q))
 }
 
 /// K: `sighash …` with digest and message of the real code
@@ -215,13 +223,10 @@ fn k_sighash(out: &mut Out, tx: &Transaction, ps: &[TxOut], genesis: &[u8; 32], 
         "panic" => "panic".to_string(),
         _ => format!("ok {} {}", d, m),
     };
-    // the K line carries the transaction in its consensus encoding: an in-memory transaction that the encoding cannot
-    // represent (a null outpoint holding a pegin flag or an issuance) is compared with the independent oracle only
-    if matches!(elements::encode::deserialize::<Transaction>(&serialize(tx)), Ok(ref t) if t == tx) {
-        out.k(sighash_line(tx, ps, genesis, q), res);
-    } else {
-        out.count("sighash.oracle_only_not_transportable");
+    if !transportable(tx) {
+        out.count("sighash.memtx_transport");
     }
+    out.k(sighash_line(tx, ps, genesis, q), res);
     // the message and the digest must fail together
     let d_ok = d.len() == 64;
     let m_ok = !(m == "err" || m == "errPrevoutKind" || m == "panic");
